@@ -24,7 +24,7 @@ CHECK = {
         "explored",
     ],
     "bounds": {"quick": {"ray_lattice": 4, "ops_depth": 6, "ops_setdir": 2, "ops_node_cap": 400000},
-               "thorough": {"ray_lattice": 7, "ops_depth": 8, "ops_setdir": 2,
+               "thorough": {"ray_lattice": 7, "ops_depth": 7, "ops_setdir": 2,
                             "ops_node_cap": 3000000}},
     "parts": [
         {"name": "rays", "harness": "c03_nav", "flavour": "rel",
